@@ -105,6 +105,13 @@ func fixedH2C(fns []string) func() []caseH2C {
 					out = append(out, caseH2C{Fn: fn, Msg: hex.EncodeToString([]byte("abc")), Dst: hex.EncodeToString(bytes.Repeat([]byte{'D'}, dl)), DstLay: gen.Layout{Post: post}})
 				}
 			}
+			for _, ml := range []int{4096, 65535, 65536, 100000} {
+				long := make([]byte, ml)
+				for i := range long {
+					long[i] = byte(i * 31)
+				}
+				out = append(out, caseH2C{Fn: fn, Msg: hex.EncodeToString(long), Dst: hex.EncodeToString([]byte("QUUX-V01-CS02-with-secp256k1_XMD:SHA-256_SSWU_RO_"))})
+			}
 			out = append(out, caseH2C{Fn: fn, Msg: "", Dst: "", NilDst: true}, caseH2C{Fn: fn, Msg: "00", Dst: ""},
 				caseH2C{Fn: fn, NilMsg: true, Dst: hex.EncodeToString([]byte("QUUX-V01-CS02-with-secp256k1_XMD:SHA-256_SSWU_RO_"))})
 		}
